@@ -100,6 +100,10 @@ def annotate_module(modpath, src, ov, report):
             continue
         report['covered'][q] = fo
         fo.used = True
+        if cont is not None and cont.kind == 'impl' and ' for ' in cont.name:
+            trq = '::'.join(p for p in ([modpath] if modpath else []) if p)
+            trq = (trq + '::' if trq else '') + cont.name.split(' for ')[0] + '::' + it.name
+            report['trait_of'][q] = trq
         meta_base = {'fn': q, 'props': fo.props}
         for a in fo.attrs:
             ins(it.attrs_start, _indent_of(src, it.start) + a + '\n', dict(meta_base, kind='attr'))
@@ -212,7 +216,7 @@ def generate(outpath, repo_src=None, contracts_dir=None):
     report = {
         'uncovered': [], 'covered': {}, 'assumed_contracts': [], 'lost_anchors': [],
         'fragile_anchors': 0, 'loops': {}, 'trait_decl_nospec': [], 'used_containers': set(),
-        'rule_counts': Counter(),
+        'rule_counts': Counter(), 'trait_of': {},
     }
     prelude = open(os.path.join(contracts_dir, 'prelude.rs')).read()
     spec_files = sorted(f for f in os.listdir(os.path.join(contracts_dir, 'spec')) if f.endswith('.rs'))
